@@ -33,6 +33,37 @@ fn main() {
                 std::fs::write(format!("{dir}/multi-{n}"), chunk.join("\n")).expect("write");
             }
         }
+        "tui_fold" => {
+            let opts = FrameOpts { big_chunks: false, json: JsonOpts { depth: 2, floats: true, max_len: 3 } };
+            let ks = kinds();
+            let ops = ["!o", "!t", "!a", "!k", "!d", "!c", "!n12345", "!f0", "!f1", "!s3", "!r80x24d", "!r40x10", "!r0x0d", "!r200x60"];
+            // one file per frame type (three frames + a render) and mixed files with UI operations
+            for (i, k) in ks.iter().enumerate() {
+                let mut lines: Vec<String> = Vec::new();
+                for n in 0..3 {
+                    let mut v = wire_frame_of(k, opts).new_tree(&mut runner).expect("tree").current();
+                    v["seq"] = serde_json::json!(n);
+                    lines.push(serde_json::to_string(&v).expect("json"));
+                }
+                lines.push(ops[10 + i % 4].to_string());
+                let mut bytes = vec![(i % 8) as u8, 0, 1, (i % 4) as u8];
+                bytes.extend(lines.join("\n").as_bytes());
+                std::fs::write(format!("{dir}/{}", k.tag), bytes).expect("write");
+            }
+            for n in 0..count * 8 {
+                let mut lines: Vec<String> = Vec::new();
+                for j in 0..12 {
+                    let k = &ks[(n * 7 + j * 5) % ks.len()];
+                    let mut v = wire_frame_of(k, opts).new_tree(&mut runner).expect("tree").current();
+                    v["seq"] = serde_json::json!(match n % 4 { 0 => j as u64, 1 => (j * 2) as u64, 2 => (12 - j) as u64, _ => (j / 2) as u64 });
+                    lines.push(serde_json::to_string(&v).expect("json"));
+                    lines.push(ops[(n + j * 3) % ops.len()].to_string());
+                }
+                let mut bytes = vec![(n % 8) as u8, 40, 0, (n % 4) as u8];
+                bytes.extend(lines.join("\n").as_bytes());
+                std::fs::write(format!("{dir}/mixed-{n}"), bytes).expect("write");
+            }
+        }
         other => panic!("unknown target {other:?}"),
     }
 }
